@@ -32,7 +32,7 @@ claims = {
  "C04": dict(level="proof",
    text=("One contract on forkexec.forkAndExecInChild with a symbolic *Runner (all option combinations at once) over ghost child state K: at both exec call sites and in the ETXTBSY retry loop "
          "caps empty + NOROOT locked when credentials/drop-caps requested, no_new_privs when requested or a filter is given, the filter installed iff given (that very program, TSYNC), uid/gid/groups, new session, ctty, cwd, host/domain name issued with the configured length, "
-         "clone/clone3 flags = requested namespaces, INTO_CGROUP iff a cgroup fd is given; late cgroup unshare only after the sync ack. Every raw syscall may fail in the model, so a dropped error check is a reachable path."),
+         "clone/clone3 flags = requested namespaces, INTO_CGROUP iff a cgroup fd is given; late cgroup unshare only after the sync ack. Every raw syscall may fail in the model, so a dropped error check is a reachable path. Parent side of a new user namespace (writeIDMaps, model U): uid_map, then setgroups (deny unless gid mappings are given with setgroups enabled), then gid_map, for the child's pid; every error is an errno value."),
    note=TRUST + "kernel model K (spec/kernel_K.contracts, from the man pages); results of sethostname/setdomainname/unshare are ignored by the code and asserted on issue only; Runner literals: container handleExecve and unshare.Run are checked at their Start call sites (always no_new_privs + drop-caps; unshare: exactly the five unshare namespaces, late cgroup unshare, no ptrace); found and fixed: a Runner without a seccomp filter crashed in Filter.SockFprog instead of starting the program without one. ptrace.Run is checked at its Trace call site (ptrace on, exactly the caller's filter or none, the tracer consults exactly the caller's policy).",
    design_ref="DESIGN.md §4 C04"),
  "C05": dict(level="proof",
